@@ -329,21 +329,22 @@ def _undo_probe(cfg, tracks, pre, add, tag, ev, post_bad=frozenset(), confirm=Tr
         if "C20" in props and len(box) - n0 != 1:
             add("C20", f"refresh-count-{op}", f"{len(box) - n0} emissions from one successful {op}", phase, tag)
         obs = canon.observe(tracks)
-        if obs != expect:
+        mismatch = obs != expect
+        if mismatch:
             d = "; ".join(canon.diff(expect, obs))
             if "C01" in props:
                 add("C01", f"{op}-does-not-restore", d, phase, tag)
             if "C07" in props and obs["seg"] != expect["seg"] and ev[0] == "paint":
                 add("C07", f"{op}-array", d, phase, tag)
-            return
-        # state invariants after undo / redo (the property texts say "undo or redo")
+        # state invariants after undo / redo (the property texts say "undo or redo"); they are
+        # evaluated on whatever state the undo / redo produced
         inv_props = [p for p in props if p in oracles.INVARIANTS and p not in pre.bad
                      and not (op == "redo" and p in post_bad)]
         bad = run_invariants(tracks, cfg, inv_props)
         for p, lst in bad.items():
             for clause, detail in lst[:2]:
                 add(p, clause, detail, phase, tag)
-        if bad:
+        if bad or mismatch:
             return
 
 
